@@ -1005,3 +1005,11 @@ def whole_origins(fn: ast.AST, expr: ast.expr, max_steps: int = 600) -> Set[Tupl
         e, w = todo.pop()
         visit(e, w)
     return res
+
+
+def clone(node: ast.AST) -> ast.AST:
+    """Detached copy of an AST node (without the _parent/_module back links, which make copy.deepcopy copy the whole module)."""
+    text = ast.unparse(node)
+    if isinstance(node, ast.expr):
+        return ast.parse(text, mode="eval").body
+    return ast.parse(text).body[0]
